@@ -633,6 +633,56 @@ theorem measured_energy_offset {σ α : Type} {d : Bool} {q : GQmc} {calls : Lis
     rw [if_neg hm, e4]; congr 1; ring
   · unfold measureEnergy; rw [if_pos hm]
 
+/-! ### 5b. the cutoff `M` under manual calls -/
+
+/-- `increase_cutoff_to(c)` with `c` at or below the current cutoff is a no-op for `M`, and it
+never lowers `M` whatever `c` is; `M` afterwards is `max(M, c)` and the container holds at least
+`M` slots. -/
+theorem increase_cutoff_spec (s : CutSt) (c : Nat) :
+    (cutApply s (.increase c)).cutoff = max s.cutoff c ∧
+    (c ≤ s.cutoff → (cutApply s (.increase c)).cutoff = s.cutoff) ∧
+    s.cutoff ≤ (cutApply s (.increase c)).cutoff ∧
+    (cutApply s (.increase c)).cutoff ≤ (cutApply s (.increase c)).len := by
+  refine ⟨rfl, fun h => Nat.max_eq_left h, Nat.le_max_left _ _, Nat.le_max_right _ _⟩
+
+/-- no `set_cutoff` among the operations -/
+def noSet : List CutOp → Prop
+  | [] => True
+  | .set _ :: _ => False
+  | _ :: t => noSet t
+
+/-- **The cutoff never decreases** under time steps and `increase_cutoff_to` calls (any order, any
+arguments), the container never shrinks, and after a step that leaves `n` operators the cutoff
+exceeds `n + n/2` (so `M − n ≥ 1`: the factor of the insertion probability is never 0 and
+`cutoff - n` never underflows). -/
+theorem cutoff_never_decreases (s : CutSt) (ops : List CutOp) (h : noSet ops) :
+    ∀ t ∈ cutTrace s ops, s.cutoff ≤ t.cutoff ∧ s.len ≤ t.len := by
+  induction ops generalizing s with
+  | nil => intro t ht; simp [cutTrace] at ht
+  | cons o rest ih =>
+    have h1 : s.cutoff ≤ (cutApply s o).cutoff ∧ s.len ≤ (cutApply s o).len := by
+      cases o with
+      | step n => exact ⟨Nat.le_max_left _ _, Nat.le_max_left _ _⟩
+      | increase c => exact ⟨Nat.le_max_left _ _, Nat.le_max_left _ _⟩
+      | set c => exact absurd h (by simp [noSet])
+    have hrest : noSet rest := by cases o <;> simp_all [noSet]
+    intro t ht
+    simp only [cutTrace, List.mem_cons] at ht
+    rcases ht with rfl | ht
+    · exact h1
+    · obtain ⟨a, b⟩ := ih (cutApply s o) hrest t ht
+      exact ⟨Nat.le_trans h1.1 a, Nat.le_trans h1.2 b⟩
+
+theorem cutoff_after_step (s : CutSt) (n : Nat) :
+    n + n / 2 + 1 ≤ (cutApply s (.step n)).cutoff ∧ n < (cutApply s (.step n)).cutoff := by
+  simp only [cutApply]
+  have := Nat.le_max_right s.cutoff (n + n / 2 + 1)
+  exact ⟨this, by omega⟩
+
+/-- the recipe of seed C04-8 on the model: grow, ask for less, keep stepping — `M` stays -/
+example : (cutTrace ⟨2, 0⟩ [.step 6, .increase 1, .increase 2, .step 7]).map (·.cutoff) = [10, 10, 10, 11] := by
+  decide
+
 /-! ### 6. `timestep` -/
 
 /-- `timestep` is: diagonal update; loop update iff `do_loop_updates`; cluster update iff the
